@@ -47,6 +47,25 @@ def _outer(a, b, axis, fn):
     return r.reshape(shp)
 
 
+# Rounding model of FFT-based polynomial products (cirkit multiplies polynomials by FFT convolution, whose error in
+# EVERY coefficient is proportional to the norms of the two coefficient vectors, not to the coefficient itself): inside
+# `with fft_noise(seed):` the reference adds 1e-13 * |a| * |b| * u, u ~ U(-1, 1), to every product coefficient, so
+# that a perturbed evaluation used as a conditioning estimate accounts for it.
+_FFT_NOISE = [None]
+
+
+class fft_noise:  # pylint: disable=invalid-name
+    def __init__(self, seed):
+        self.seed = seed
+
+    def __enter__(self):
+        _FFT_NOISE[0] = np.random.default_rng(self.seed)
+
+    def __exit__(self, *exc):
+        _FFT_NOISE[0] = None
+        return False
+
+
 def eval_node(n, ins, val):
     """Mathematical definition of one symbolic parameter node."""
     if isinstance(n, P.ConstantParameter):
@@ -128,6 +147,9 @@ def eval_node(n, ins, val):
         for i in range(a.shape[0]):
             for j in range(b.shape[0]):
                 out[i * b.shape[0] + j] = np.convolve(a[i], b[j])
+                if _FFT_NOISE[0] is not None:
+                    u = _FFT_NOISE[0].uniform(-1, 1, size=out.shape[1])
+                    out[i * b.shape[0] + j] += 1e-13 * np.linalg.norm(a[i]) * np.linalg.norm(b[j]) * u
         return out
     if isinstance(n, P.PolynomialDifferential):
         a = ins[0]
